@@ -60,6 +60,20 @@ type scenRecord struct {
 	Line        string         `json:"line,omitempty"`
 	DriverOut   string         `json:"driver_out,omitempty"`
 	Admitted    bool           `json:"admitted,omitempty"`
+	Log         []logEvent     `json:"log,omitempty"`
+	Addr        string         `json:"addr,omitempty"`
+
+	pending *pendingReplay // child only: to be replayed on the model at the end of the batch
+}
+
+// The driver is started once per batch, after the last scenario: starting a process forks, and
+// until the forked child has exec'ed it holds a copy of every socket of this process — a listener
+// that a fault script has just closed would stay alive in the kernel for that moment and take
+// connections nobody ever accepts.
+type pendingReplay struct {
+	o  *observation
+	an *analysis
+	w  *witness
 }
 
 const scenarioWatchdog = 6 * time.Minute
@@ -167,15 +181,7 @@ func evaluate(j job, driver string) scenRecord {
 		if w.skip != "" {
 			rec.WitnessSkip = w.skip
 		} else {
-			rec.Line = vh.Clip(w.line, 4000)
-			outs, err := vh.RunDriver(driver, []string{w.line})
-			if err != nil {
-				rec.Corr = "driver: " + err.Error()
-			} else {
-				rec.DriverOut = vh.Clip(outs[0], 4000)
-				rec.Corr = compareWitness(o, an, w, outs[0])
-				rec.Admitted = rec.Corr == ""
-			}
+			rec.pending = &pendingReplay{o, an, w}
 		}
 	}
 	return rec
@@ -225,6 +231,8 @@ func childMain(env *vh.Env) {
 	}
 	sem := make(chan struct{}, par)
 	var wg sync.WaitGroup
+	var pmu sync.Mutex
+	var pend []*scenRecord
 	for _, j := range jobs {
 		wg.Add(1)
 		sem <- struct{}{}
@@ -233,6 +241,12 @@ func childMain(env *vh.Env) {
 			defer func() { <-sem }()
 			emit(scenRecord{Event: "start", Idx: j.Idx, Spec: j.Spec})
 			r := evaluate(j, env.Driver)
+			if r.pending != nil {
+				pmu.Lock()
+				rr := r
+				pend = append(pend, &rr)
+				pmu.Unlock()
+			}
 			if os.Getenv("C06_DEBUG") != "" {
 				fmt.Fprintf(os.Stderr, "%-40s cap=%d faults=%d/%d conns=%d sends=%d recv=%d wall=%dms\n", j.Spec.Name, j.Spec.QueueCap, r.Faults, len(j.Spec.Script), len(r.Conns), r.Sends, r.Received, r.WallMs)
 			}
@@ -240,6 +254,30 @@ func childMain(env *vh.Env) {
 		}(j)
 	}
 	wg.Wait()
+	// model replay of everything that finished, in one driver run
+	pmu.Lock()
+	defer pmu.Unlock()
+	if len(pend) > 0 && env.Driver != "" {
+		lines := make([]string, len(pend))
+		for i, r := range pend {
+			lines[i] = r.pending.w.line
+		}
+		outs, err := vh.RunDriver(env.Driver, lines)
+		for i, r := range pend {
+			c := scenRecord{Event: "corr", Idx: r.Idx, Spec: r.Spec, Line: vh.Clip(lines[i], 4000)}
+			if err != nil {
+				c.Corr = "driver: " + err.Error()
+			} else {
+				c.DriverOut = vh.Clip(outs[i], 4000)
+				c.Corr = compareWitness(r.pending.o, r.pending.an, r.pending.w, outs[i])
+				c.Admitted = c.Corr == ""
+				if c.Corr != "" && len(r.pending.o.Log) < 200 {
+					c.Log = r.pending.o.Log
+				}
+			}
+			emit(c)
+		}
+	}
 	out.Close()
 }
 
@@ -311,6 +349,10 @@ func runChild(env *vh.Env, jobs []job, par int, timeout time.Duration) *childRun
 			} else if r.Event == "done" {
 				rr := r
 				cr.done[r.Idx] = &rr
+			} else if r.Event == "corr" {
+				if d, ok := cr.done[r.Idx]; ok {
+					d.Corr, d.Line, d.DriverOut, d.Admitted, d.Log = r.Corr, r.Line, r.DriverOut, r.Admitted, r.Log
+				}
 			}
 		}
 		f.Close()
